@@ -3,14 +3,14 @@
 #include "ares_private.h"
 #include "select_ghost.h"
 void *ares_slist_first_val(const ares_slist_t *l) { return &g_first; }
-ares_status_t ares_open_connection(ares_conn_t **conn_out, ares_channel_t *channel, ares_server_t *server, ares_bool_t is_tcp) { __CPROVER_assert(server == g_fetch_server, "C09: the connection is opened to the chosen server"); if (g_open_status == ARES_SUCCESS) *conn_out = &g_conn; return g_open_status; }
+ares_status_t ares_open_connection(ares_conn_t **conn_out, ares_channel_t *channel, ares_server_t *server, ares_bool_t is_tcp) { __CPROVER_assert(server == g_fetch_server, "C09: the connection is opened to the chosen server"); if (g_open_status == ARES_SUCCESS) { *conn_out = &g_conn; g_wakeups++; /* the new socket is announced */ } return g_open_status; }
 void ares_slist_node_destroy(ares_slist_node_t *n) { if (n) g_tmo_destroyed++; }
 void ares_llist_node_destroy(ares_llist_node_t *n) { if (n) g_ll_destroyed++; }
 ares_slist_node_t *ares_slist_insert(ares_slist_t *list, void *val) { return g_tmo_ok ? (ares_slist_node_t *)&tok_tmo : NULL; }
 ares_llist_node_t *ares_llist_insert_last(ares_llist_t *list, void *val) { return g_ll_ok ? (ares_llist_node_t *)&tok_conn : NULL; }
 ares_server_t *ares_random_server(ares_channel_t *channel) { return g_random; }
 ares_conn_t *ares_fetch_connection(const ares_channel_t *channel, ares_server_t *server, const ares_query_t *query) { g_fetch_server = server; return g_fetched; }
-ares_status_t ares_conn_query_write(ares_conn_t *conn, ares_query_t *query, const ares_timeval_t *now) { __CPROVER_assert(conn == &g_conn, "C10: the query is written to the fetched/opened connection"); return g_write_status; }
+ares_status_t ares_conn_query_write(ares_conn_t *conn, ares_query_t *query, const ares_timeval_t *now) { __CPROVER_assert(conn == &g_conn, "C10: the query is written to the fetched/opened connection"); if (g_write_status == ARES_SUCCESS && g_write_wakes && (conn->flags & ARES_CONN_FLAG_TCP)) g_wakeups++; return g_write_status; }
 size_t ares_calc_query_timeout(const ares_query_t *query, const ares_server_t *server, const ares_timeval_t *now) { __CPROVER_assert(server == g_fetch_server, "C06: the timeout is computed for the chosen server"); return g_timeplus; }
 void end_query(ares_channel_t *channel, ares_server_t *server, ares_query_t *query, ares_status_t status, const ares_dns_record_t *dnsrec) { g_ended++; g_end_status = status; }
 ares_status_t ares_requeue_query(ares_query_t *query, const ares_timeval_t *now, ares_status_t status, ares_bool_t inc, const ares_dns_record_t *dnsrec, ares_array_t **requeue) { __CPROVER_assert(requeue == NULL, "direct requeue"); __CPROVER_assert(!g_query_released, "C01: the query being sent is not used after a completion callback could cancel and release it (a sibling completed while its connection was closed)"); g_requeued++; g_rq_status = status; g_rq_inc = inc; return ARES_SUCCESS; }
@@ -19,4 +19,7 @@ void ares_probe_failed_server(ares_channel_t *channel, const ares_server_t *serv
 void handle_conn_error(ares_conn_t *conn, ares_bool_t critical_failure, ares_status_t failure_status) { __CPROVER_assert(conn == &g_conn, "C10: the failing connection is the one written to"); g_connerr++; if (g_cb_may_cancel) g_query_released = 1; }
 /* a released query is in no index */
 void *ares_htable_szvp_get_direct(const ares_htable_szvp_t *h, size_t key) { return g_query_released ? NULL : (void *)g_sending; }
+/* ASSUMED wake-up sources (each proved where it lives): registering a new socket announces it to the event loop (process.open_connection); a TCP write is handed to the event thread through the pending-write notification; a UDP write on an existing connection changes no socket interest and announces nothing (process.conn_flush_udp) */
+ares_slist_node_t *ares_slist_node_first(const ares_slist_t *l) { return g_new_is_earliest ? (ares_slist_node_t *)&tok_tmo : (ares_slist_node_t *)&tok_other_tmo; }
+void ares_event_thread_wake_channel(const ares_channel_t *channel) { g_wakeups++; }
 void timeadd(ares_timeval_t *now, size_t millisecs) { __CPROVER_assert(millisecs == g_timeplus, "C07: the deadline uses the computed timeout"); g_timeadd++; }
